@@ -157,6 +157,27 @@ def enum_histories(depth, K=K_SMALL, P=P_SMALL, U=U_SMALL):
     return out
 
 
+def reissue_extensions(hists, depth):
+    """Lesson (n): every history of maximal length is extended by ONE final step that re-issues an
+    earlier namespace operation of the same history verbatim (idempotent re-application), when the
+    operation's target has descendants by then (otherwise it is an ordinary shorter history up to
+    renaming). Linear in the number of histories."""
+    out = []
+    for h in hists:
+        if len(h) != depth:
+            continue
+        kids = {}
+        for o in h:
+            if o[0] == "A":
+                kids.setdefault(o[1], []).append(o[2])
+        seen = set()
+        for o in h[:-1]:
+            if o[0] in "DU" and kids.get(o[1]) and o not in seen:
+                seen.add(o)
+                out.append(tuple(h) + (o,))
+    return out
+
+
 def random_history(rng, k, length, P=3, U=3):
     ab = Abstract(k)
     hist = []
@@ -171,6 +192,10 @@ def random_history(rng, k, length, P=3, U=3):
                 if rng.random() < 0.4:
                     idx = rng.randint(-3, len(ab.kids[par]) + 2)
                 op = ("A", par, c, idx)
+        if op is None and hist and rng.random() < 0.2:
+            old = [o for o in hist if o[0] in "DU"]      # re-issue an earlier namespace operation verbatim
+            if old:
+                op = rng.choice(old)
         if op is None:
             n = rng.randrange(k)
             if r < 0.8:
@@ -300,10 +325,14 @@ def run(ctx):
     depth = 5 if thorough else 4
     ctx.extra["rule"] = (f"(i) every history of length 1..{depth} over attach / declare / re-declare / undeclare on {K_SMALL} nodes, "
                          f"{P_SMALL} prefixes, {U_SMALL} URIs + the empty URI, one per orbit of the renaming symmetry (names numbered by first mention), "
-                         "attach restricted to detached roots not above the parent; (ii) random histories of length 60 on 12-15 nodes, "
+                         "attach restricted to detached roots not above the parent; every history of maximal length extended by one verbatim re-issue of an earlier "
+                         "declare/undeclare whose target has descendants; (ii) random histories of length 60 on 12-15 nodes, "
                          "3 prefixes, 3 URIs, random insertion indices; non-trivial = distinct history whose last step changes some binding or some sharing class")
     # ---- (i) exhaustive
-    hists = sorted(enum_histories(depth), key=len)     # shortest first: the first failure found is a shortest one
+    hists = enum_histories(depth)
+    ext = reissue_extensions(hists, depth)
+    ctx.count("reissue_extensions", len(ext))
+    hists = sorted(hists + ext, key=len)     # shortest first: the first failure found is a shortest one
     ctx.count("exhaustive_histories", len(hists))
     terms, metas = [], []
     budget = 480 if thorough else 45
@@ -322,7 +351,7 @@ def run(ctx):
             continue
         final = st[-1]
         ctx.case(hist, nontrivial=True)
-        if len(hist) <= 4 or ctx.rng.random() < sample_p:
+        if len(hist) <= 4 or (len(hist) == 5 and not thorough) or ctx.rng.random() < sample_p:
             terms.append(f"({K_SMALL}, {clist(coq_op(o) for o in hist)}, {coq_state(final)})")
             metas.append((K_SMALL, hist, final))
         if i % 4000 == 0:
